@@ -65,7 +65,11 @@ def main(ctx, replay=None):
         for _, mode, ts, ps, req, vs, near in picks:
             d = Path(tempfile.mkdtemp(dir=tmp))
             t0, p0 = (0.0, 0.0) if rng.random() < 0.5 else (300.0, 10.0)      # grids starting at exactly 0 K / 0 GPa half of the time
-            tv = [t0 + 50.0 * x for x in ts]              # doubled units -> Kelvin (step 100 K per unit)
+            # temperature unit: whole Kelvin (step 100 K per model unit) or fractional grids (DT = 25, 0.5 K); T_MIN = 0.5 K
+            tu = float(rng.choice([50.0, 50.0, 12.5, 0.25]))
+            if tu != 50.0 and t0 != 0.0:
+                t0 = 0.5
+            tv = [t0 + tu * x for x in ts]
             pv = [p0 + 2.5 * x for x in ps]
             # the abstract variables a, b, c are realised by output names of a real run; names that are prefixes of other names
             # (bm_V / bm_VRH, G_V / G_VRH, v / v_p / v_s) are part of "each requested variable"
@@ -81,7 +85,7 @@ def main(ctx, replay=None):
                     write_table(d / f"{name}_tp_{suf}", tv, pv, lambda i, j, t, p: -1.0)
                     if rng.random() < 0.3:
                         write_table(d / f"{name}_tv_{suf}", tv, pv, lambda i, j, t, p: -2.0)
-            want = (t0 + 50.0 * req) if mode == "T" else (p0 + 2.5 * req)
+            want = (t0 + tu * req) if mode == "T" else (p0 + 2.5 * req)
             args = ["-v", ",".join(VARNAME[v] for v in vs), "-T" if mode == "T" else "-P", repr(want)]
             case = {"mode": mode, "ts": ts, "ps": ps, "req": req, "vars": vs}
             ctx.count(case)
